@@ -18,24 +18,34 @@ Theorem C19_chain_never_escapes :
       chain pymodule pyclass pydeser import_module getattr_ is_type issubclass_ser get_deserializer data <> RaiseF e.
 Proof. exact chain_no_escape. Qed.
 
-(* full statement on the fragment F = not K_abstract: every outcome is a return or a JSONSerializationError subclass *)
+(* the full statement, unconditional: for every document and every documented oracle behaviour the outcome is a return or
+   a JSONSerializationError subclass -- never a foreign exception (C19-a repaired by 04c9528, C19-b by dd15a30) *)
 Theorem C19_only_documented :
   forall (pymodule pyclass pydeser : Type) import_module getattr_ is_type issubclass_ser get_deserializer implements_from_json,
     importer_documented pymodule import_module -> getattr_documented pymodule pyclass getattr_ ->
     issubclass_documented pyclass is_type issubclass_ser ->
     forall data : jv,
-      K_abstract pymodule pyclass pydeser import_module getattr_ is_type issubclass_ser get_deserializer implements_from_json data = false ->
       documented_outcome pyclass pydeser
         (resolve pymodule pyclass pydeser import_module getattr_ is_type issubclass_ser get_deserializer implements_from_json data).
 Proof. exact resolve_only_documented. Qed.
 
-(* ... and the error identifies the problem: the outcome is exactly the Spec's decision table on the tag *)
+(* a tag that names a serialiser class without _from_json (the base class itself, ...) is reported as not deserialisable *)
+Theorem C19_abstract_class_not_deserializable :
+  forall (pymodule pyclass pydeser : Type) import_module getattr_ is_type issubclass_ser get_deserializer implements_from_json (data : jv),
+    K_abstract pymodule pyclass pydeser import_module getattr_ is_type issubclass_ser get_deserializer implements_from_json data = true ->
+    resolve pymodule pyclass pydeser import_module getattr_ is_type issubclass_ser get_deserializer implements_from_json data
+    = RaiseJ ClassNotDeserializableError.
+Proof. exact resolve_abstract. Qed.
+
+(* ... and the error identifies the problem: the outcome is exactly the Spec's decision table on the tag.  Excluded: an
+   abstract serialiser class that ALSO has a registered deserialiser (there the code answers ClassNotDeserializableError --
+   documented, so C19_only_documented covers it -- where the table would use the registry; see the Example below) *)
 Theorem C19_identifies_problem :
   forall (pymodule pyclass pydeser : Type) import_module getattr_ is_type issubclass_ser get_deserializer implements_from_json,
     importer_documented pymodule import_module -> getattr_documented pymodule pyclass getattr_ ->
     issubclass_documented pyclass is_type issubclass_ser ->
     forall d : list (str * jv),
-      K_abstract pymodule pyclass pydeser import_module getattr_ is_type issubclass_ser get_deserializer implements_from_json (JObj d) = false ->
+      K_abstract_registered pymodule pyclass pydeser import_module getattr_ is_type issubclass_ser get_deserializer implements_from_json (JObj d) = false ->
       resolve pymodule pyclass pydeser import_module getattr_ is_type issubclass_ser get_deserializer implements_from_json (JObj d)
       = outcome_of pyclass pydeser
           (full_spec pymodule pyclass pydeser import_module getattr_ is_type issubclass_ser get_deserializer implements_from_json (tag_of d)).
@@ -59,18 +69,26 @@ Theorem C19_model_is_spec :
     importer_documented Z (rc_import c) -> getattr_documented Z Z (rc_getattr c) ->
     issubclass_documented Z (memz (rc_types c)) (rc_issub c) ->
     (rc_has_tag c = false -> dict_get (rc_extra c) JSON_TYPE_NAME = None) ->
-    K_abstract Z Z Z (rc_import c) (rc_getattr c) (memz (rc_types c)) (rc_issub c) (assoc_z (rc_regs c)) (memz (rc_impl c)) (rc_data c) = false ->
+    K_abstract_registered Z Z Z (rc_import c) (rc_getattr c) (memz (rc_types c)) (rc_issub c) (assoc_z (rc_regs c)) (memz (rc_impl c)) (rc_data c) = false ->
     model_rcase c = spec_rcase c.
 Proof. exact model_rcase_eq_spec. Qed.
 
-(* outside F the full statement is false: a tag naming SubclassJSONSerializer itself (or a subclass that does not
-   override _from_json) escapes as NotImplementedError -- known finding C19-b *)
-Theorem C19_refuted_abstract_base :
-  exists (import_module : str -> M Z) (getattr_ : Z -> str -> M Z) (is_type : Z -> bool) (issubclass_ser : Z -> M bool)
-         (get_deserializer : Z -> option Z) (implements : Z -> bool) (data : jv),
-    importer_documented Z import_module /\ getattr_documented Z Z getattr_ /\ issubclass_documented Z is_type issubclass_ser /\
-    resolve Z Z Z import_module getattr_ is_type issubclass_ser get_deserializer implements data = RaiseF NotImplementedError.
-Proof. exact abstract_base_escapes. Qed.
+(* regression example for the former finding C19-b (fixed by dd15a30): the tag "k.S", S a serialiser class without
+   _from_json, in a documented world, now gives ClassNotDeserializableError (it was NotImplementedError) *)
+Example C19_regression_abstract_base :
+  importer_documented Z w_import /\ getattr_documented Z Z w_getattr /\
+  issubclass_documented Z (fun _ => true) (fun _ => Ok true) /\
+  resolve Z Z Z w_import w_getattr (fun _ => true) (fun _ => Ok true) (fun _ => None) (fun _ => false) w_data
+  = RaiseJ ClassNotDeserializableError.
+Proof. exact abstract_base_documented. Qed.
+
+(* the exclusion of C19_identifies_problem is inhabited: same tag, S also registered with deserialiser 9 *)
+Example C19_abstract_registered_divergence :
+  let res := resolve Z Z Z w_import w_getattr (fun _ => true) (fun _ => Ok true) (fun _ => Some 9) (fun _ => false) w_data in
+  let spec := full_spec Z Z Z w_import w_getattr (fun _ => true) (fun _ => Ok true) (fun _ => Some 9) (fun _ => false) (tag_of [(JSON_TYPE_NAME, JStr [107; 46; 83])]) in
+  res = RaiseJ ClassNotDeserializableError /\ spec = RByRegistry 2 9 /\
+  K_abstract_registered Z Z Z w_import w_getattr (fun _ => true) (fun _ => Ok true) (fun _ => Some 9) (fun _ => false) w_data = true.
+Proof. exact abstract_registered_divergence. Qed.
 
 (* non-vacuity: in one documented world, a tag that resolves, and the former C19-a witnesses (5, ".x", a function, a
    module attribute that is no class) each with its documented error *)
@@ -90,7 +108,7 @@ Proof. repeat split. Qed.
 
 Print Assumptions C19_chain_never_escapes.
 Print Assumptions C19_only_documented.
+Print Assumptions C19_abstract_class_not_deserializable.
 Print Assumptions C19_identifies_problem.
 Print Assumptions C19_never_wrongly_typed.
 Print Assumptions C19_model_is_spec.
-Print Assumptions C19_refuted_abstract_base.
